@@ -939,7 +939,19 @@ impl Driver {
         if eqb.is_some() && !derives.contains("PartialEq") {
             return Err(format!("enum `{}`: `eqb=` given but the enum does not derive PartialEq (a hand-written `eq` is not translated)", name));
         }
-        let eqb = if eqb.is_none() && variants.iter().all(|v| v.fields.is_empty()) && derives.contains("PartialEq") { Some(format!("{}_eqb", sanitize(name))) } else { eqb };
+        // derive(PartialEq): structural equality, when every field has a decidable equality we know
+        let field_eq_ok = |t: &Ty| -> bool {
+            match t {
+                Ty::Int(Some(_)) | Ty::Bool => true,
+                Ty::Adt(k) => match self.tables.adts.get(k) {
+                    Some(Adt::Struct(s)) => s.eqb.is_some(),
+                    Some(Adt::Enum(e)) => e.eqb.is_some(),
+                    None => false,
+                },
+                _ => false,
+            }
+        };
+        let eqb = if eqb.is_none() && variants.iter().all(|v| v.fields.iter().all(|(_, t)| field_eq_ok(t))) && derives.contains("PartialEq") { Some(format!("{}_eqb", sanitize(name))) } else { eqb };
         let auto_eqb = eqb.as_deref() == Some(format!("{}_eqb", sanitize(name)).as_str());
         let clone_ok = derives.contains("Clone") || derives.contains("Copy");
         let line = en.span().start().line;
@@ -1283,6 +1295,7 @@ impl Driver {
         for it in all_items(&src.file.items) {
             match (it, &st) {
                 (Item::Const(c), None) if c.ident == name => found.push((&c.ty, &c.expr, c.span().start().line, c.span().end().line)),
+                (Item::Static(c), None) if c.ident == name && matches!(c.mutability, StaticMutability::None) => found.push((&c.ty, &c.expr, c.span().start().line, c.span().end().line)),
                 (Item::Impl(im), Some(t)) if type_last_ident(&im.self_ty).as_deref() == Some(t.rsplit('.').next().unwrap()) => {
                     for ii in im.items.iter() {
                         if let ImplItem::Const(c) = ii {
@@ -1301,7 +1314,7 @@ impl Driver {
         let (ty, ex, l1, l2) = found[0];
         let mvars = self.mvars_of(quote::ToTokens::to_token_stream(ex), None, file);
         let ty = self.conv(ty, &BTreeSet::new(), st.as_deref(), None)?;
-        let mut tr = Tr { t: &self.tables, self_ty: st.clone(), ret_ty: ty.clone(), mut_self: false, counter: BTreeMap::new(), mut_methods: BTreeSet::new(), generic_tys: BTreeSet::new(), subst: BTreeMap::new(), fuel: false, needs_fuel: false, fuel_var: String::new(), fuel_names: BTreeSet::new(), mutarg_names: BTreeSet::new(), mut_params: vec![], ret_coq: String::new(), loops: vec![], fn_assigned: BTreeSet::new(), cur_file: file.to_string(), fn_coq: String::new(), loop_counter: 0, aux_defs: vec![], turbofish_types: None, inst_traits: BTreeMap::new(), self_coq: String::new(), mut_param_coq: vec![] };
+        let mut tr = Tr { t: &self.tables, self_ty: st.clone(), ret_ty: ty.clone(), mut_self: false, counter: BTreeMap::new(), mut_methods: BTreeSet::new(), generic_tys: BTreeSet::new(), subst: BTreeMap::new(), fuel: false, needs_fuel: false, unwrap_retry: false, fuel_var: String::new(), fuel_names: BTreeSet::new(), mutarg_names: BTreeSet::new(), mut_params: vec![], ret_coq: String::new(), loops: vec![], fn_assigned: BTreeSet::new(), cur_file: file.to_string(), fn_coq: String::new(), loop_counter: 0, aux_defs: vec![], turbofish_types: None, inst_traits: BTreeMap::new(), self_coq: String::new(), mut_param_coq: vec![] };
         let mut cenv = Env::default();
         let cbinders = self.mvar_binders(&mvars, &mut tr, &mut cenv)?;
         let v = tr.pure(ex, &cenv, Some(&ty)).map_err(|e| format!("{} const `{}`: {}", file, spec, e))?;
@@ -1311,7 +1324,8 @@ impl Driver {
         let head = format!("(* {}:{}-{}  const {}  hash:{:016x} *)", file, l1, l2, spec, fnv1a(&text));
         let cty = self.tables.coq_ty(&ty)?;
         let body = format!("{}\nDefinition {}{} : {} := {}.\n", head, coq, cbinders, cty, v.s);
-        if self.tables.consts.iter().any(|c| c.key == spec || c.coq == coq) {
+        // the same bare name may be a (file-private) constant of several files; the Coq names must differ
+        if self.tables.consts.iter().any(|c| (c.key == spec && (c.file == file || st.is_some())) || c.coq == coq) {
             return Err(format!("{} const `{}`: key or Coq name `{}` already used", file, spec, coq));
         }
         self.tables.consts.push(ConstInfo { key: spec.to_string(), coq, ty, mvars, file: file.to_string() });
@@ -1326,7 +1340,12 @@ impl Driver {
             Ok(s) => Ok((s, self.tables.fns[job.info_idx].fuel)),
             Err((e, needs_fuel)) => {
                 if needs_fuel && !self.tables.fns[job.info_idx].fuel {
-                    self.translate_fn_with(job, true).map(|s| (s, true)).map_err(|(e, _)| e)
+                    let r = self.translate_fn_with(job, true).map(|s| (s, true)).map_err(|(e, _)| e)?;
+                    // fuel only because of `unwrap()`: refuse (the function has no loop; `unwrap` panics)
+                    if e.contains("`unwrap()` (panics") && r.0.matches("fuel'").count() <= 1 {
+                        return Err(format!("{} `{}`: `unwrap()` in a function without loops / fuelled calls (it panics; not translated)", job.file, self.tables.fns[job.info_idx].key));
+                    }
+                    Ok(r)
                 } else {
                     Err(e)
                 }
@@ -1376,6 +1395,7 @@ impl Driver {
             },
             fuel,
             needs_fuel: false,
+            unwrap_retry: false,
             fuel_var: "fuel'".into(),
             fuel_names,
             mutarg_names,
@@ -1555,7 +1575,28 @@ impl Driver {
                     let n = e.eqb.clone().unwrap();
                     writeln!(out, "Definition {} (a b : {}) : bool :=\n  match a, b with", n, e.coq_ty).unwrap();
                     for v in e.variants.iter() {
-                        writeln!(out, "  | {}, {} => true", v.ctor, v.ctor).unwrap();
+                        if v.fields.is_empty() {
+                            writeln!(out, "  | {}, {} => true", v.ctor, v.ctor).unwrap();
+                        } else {
+                            let xs: Vec<String> = (0..v.fields.len()).map(|i| format!("x{}_", i)).collect();
+                            let ys: Vec<String> = (0..v.fields.len()).map(|i| format!("y{}_", i)).collect();
+                            let mut conj = vec![];
+                            for (i, (_, t)) in v.fields.iter().enumerate() {
+                                conj.push(match t {
+                                    Ty::Bool => format!("Bool.eqb {} {}", xs[i], ys[i]),
+                                    Ty::Adt(k) => {
+                                        let f = match self.tables.adts.get(k) {
+                                            Some(Adt::Struct(s)) => s.eqb.clone(),
+                                            Some(Adt::Enum(e2)) => e2.eqb.clone(),
+                                            None => None,
+                                        };
+                                        format!("{} {} {}", f.ok_or_else(|| format!("no eqb for {}", k))?, xs[i], ys[i])
+                                    }
+                                    _ => format!("({} =? {})", xs[i], ys[i]),
+                                });
+                            }
+                            writeln!(out, "  | {} {}, {} {} => {}", v.ctor, xs.join(" "), v.ctor, ys.join(" "), conj.join(" && ")).unwrap();
+                        }
                     }
                     if e.variants.len() > 1 {
                         writeln!(out, "  | _, _ => false").unwrap();
